@@ -268,12 +268,13 @@ func TestVerifC19(t *testing.T) {
 				}
 			}
 		}
-		if len(its) == 1 && its[0].kind == 3 {
-			for _, alt := range []item{{kind: 3, s: "dep", r: RequirementConfig{Path: its[0].r.Path, Version: "v1.2.3"}},
-				{kind: 3, s: "dep", r: its[0].r}, {kind: 3, s: its[0].s, r: RequirementConfig{Path: its[0].r.Path, Version: "v1.2.3"}}} {
-				if fails(build([]item{alt})) {
-					its = []item{alt}
-					break
+		if len(its) == 1 && its[0].kind == 3 { // a single requirement: plain name, path, version where the failure survives
+			for _, alt := range []func(it item) item{
+				func(it item) item { it.s = "dep"; return it },
+				func(it item) item { it.r.Path = "a"; return it },
+				func(it item) item { it.r.Version = "v1.2.3"; return it }} {
+				if cand := alt(its[0]); fails(build([]item{cand})) {
+					its[0] = cand
 				}
 			}
 		}
